@@ -144,6 +144,16 @@ def check_case(res, spec, grid, radius, rng, exprs, label):
                 if np.max(np.abs(S @ vec - vec * val)) > 1e-9 * (1 + np.max(np.abs(S))):
                     bad.append(f"principal stresses at grid centre ({r},{c}) are not an eigen-decomposition of its tensor")
                     break
+        # the reported principal stresses are those of THIS analysis: one entry per grid centre, also when the same frame was analysed
+        # before with another grid
+        if len(collide) == grid * grid and len(fr.principal_stress) != grid * grid:
+            bad.append(f"{len(fr.principal_stress)} principal stresses reported for the {grid}x{grid} grid")
+        g2 = grid + 1 if grid < 9 else grid - 1
+        with impl.quiet():
+            fr.calculate_stress_tensor(coarsing=g2, radius=radius)
+        if g2 <= 10 and len(fr.principal_stress) != g2 * g2:
+            bad.append(f"after a second analysis of the same frame with a {g2}x{g2} grid, {len(fr.principal_stress)} principal stresses are reported "
+                       f"(entries of the earlier {grid}x{grid} analysis survive)")
     except Exception as ex:  # noqa
         bad.append(f"calculate_stress_tensor raised {type(ex).__name__}: {str(ex)[:60]}")
     for m in bad[:3]:
